@@ -1,4 +1,5 @@
 """shared scenario helpers for the e2e checks"""
+from fractions import Fraction
 import random
 import hashlib
 from .model import tls, cap, pcapio, net, iana
@@ -57,7 +58,9 @@ def record_ranges(conn):
 
 
 def run(pkts, keylog_lines, args=(), **kw):
-    data = cap.pcapng(pkts)
+    # microsecond container unless an instant needs nanoseconds
+    fine = any((Fraction(p.ts) * 10 ** 6).denominator != 1 for p in pkts)
+    data = cap.pcapng(pkts, tsresol=9) if fine else cap.pcapng(pkts)
     kl = None if keylog_lines is None else "\n".join(keylog_lines) + "\n"
     return harness.run_tlexport(data, kl, args, **kw)
 
